@@ -16,6 +16,10 @@ pub struct Cfg {
     pub sc: u32,
     pub iv: u32,
     pub yaml: bool,
+    /// 0: one initialisation, no cached clock; 1: an earlier initialisation with the cached clock,
+    /// then this one without; 2: earlier without, this one with; 3: both with the cached clock
+    #[serde(default)]
+    pub cache: u8,
 }
 
 /// independent validity predicate: the default metric window (sc, iv) must be servable by the
@@ -30,8 +34,8 @@ fn entity(c: &Cfg) -> ConfigEntity {
     e.config.stat.interval_ms_total = c.ivt;
     e.config.stat.sample_count = c.sc;
     e.config.stat.interval_ms = c.iv;
-    // no background tasks: the harness owns time and system readings
-    e.config.use_cache_time = false;
+    // no background tasks but (when asked for) the cached clock: the harness owns time and system readings
+    e.config.use_cache_time = c.cache >= 2;
     e.config.log.metric.flush_interval_sec = 0;
     e.config.stat.system.system_interval_ms = 0;
     e.config.stat.system.load_interval_ms = 0;
@@ -51,6 +55,38 @@ fn init(c: &Cfg, tag: &str) -> Result<(), String> {
     } else {
         sentinel_core::init_with_config(entity(c)).map_err(|e| e.to_string())
     }
+}
+
+fn real_ms() -> u64 {
+    std::time::SystemTime::now().duration_since(std::time::UNIX_EPOCH).unwrap().as_millis() as u64
+}
+
+/// With the harness clock switched off, the library's own clock (cached or not, whatever earlier
+/// initialisations of the process asked for) must keep following real time: it reaches an instant
+/// read from the system clock, and then a later one. A deadline of 20 s of real time stands for
+/// "never" (a live clock needs about a millisecond).
+fn live_clock_check() -> Result<(), String> {
+    let saved = clock::get_ns();
+    clock::set_ns(0);
+    let mut res = Ok(());
+    'outer: for round in 0..2 {
+        let target = real_ms();
+        let start = std::time::Instant::now();
+        loop {
+            let now = sentinel_core::utils::curr_time_millis();
+            if now >= target {
+                break;
+            }
+            if start.elapsed().as_secs() >= 20 {
+                res = Err(format!("clock-frozen: after the accepted initialisation the library clock reads {} and has not reached the system time {} within 20 s (round {})", now, target, round));
+                break 'outer;
+            }
+            std::thread::sleep(std::time::Duration::from_millis(1));
+        }
+        std::thread::sleep(std::time::Duration::from_millis(3));
+    }
+    clock::set_ns(saved);
+    res
 }
 
 /// Touch a brand-new resource on the calling thread and report the geometry of its node, by the
@@ -115,6 +151,14 @@ pub fn run_cfg(c: &Cfg, idx: usize) -> Result<String, String> {
                 let _ = rtx.send(probe(&name));
             }
         });
+        if c.cache == 1 || c.cache == 3 {
+            // an earlier initialisation of the same process: default geometry, cached clock
+            let mut e = entity(&Cfg { sct: 20, ivt: 10000, sc: 2, iv: 1000, yaml: false, cache: 0 });
+            e.config.use_cache_time = true;
+            sentinel_core::init_with_config(e).map_err(|e| format!("rejected-servable: the default configuration with the cached clock: {}", e))?;
+        } else if c.cache == 2 {
+            sentinel_core::init_with_config(entity(&Cfg { sct: 20, ivt: 10000, sc: 2, iv: 1000, yaml: false, cache: 0 })).map_err(|e| format!("rejected-servable: the default configuration: {}", e))?;
+        }
         let before = probe(&format!("c17-before-{}", idx))?;
         let r = init(&c, &idx.to_string());
         let want = acceptable(&c);
@@ -132,6 +176,7 @@ pub fn run_cfg(c: &Cfg, idx: usize) -> Result<String, String> {
             }
             (Ok(()), true) => {
                 expect_geometry(&c, "the initialising thread", probe(&format!("c17-init-{}", idx)))?;
+                live_clock_check()?;
                 let name = format!("c17-late-{}", idx);
                 let late = std::thread::spawn(move || probe(&name)).join().map_err(|_| "panic: late thread".to_string())?;
                 expect_geometry(&c, "a thread spawned after initialisation", late)?;
@@ -151,15 +196,27 @@ pub fn run_cfg(c: &Cfg, idx: usize) -> Result<String, String> {
 pub fn configs(thorough: bool) -> Vec<Cfg> {
     let mut v = vec![];
     let mut k = 0usize;
+    let mut na = 0usize;
     for sct in [20u32, 0, 1, 2, 3, 4] {
         for ivt in [10000u32, 0, 500, 1000, 3000] {
             for sc in [2u32, 0, 1, 3, 4] {
                 for iv in [1000u32, 0, 250, 500, 1500, 2000, 10000] {
                     for yaml in [false, true] {
                         k += 1;
-                        let c = Cfg { sct, ivt, sc, iv, yaml };
+                        let mut c = Cfg { sct, ivt, sc, iv, yaml, cache: 0 };
                         if !thorough && !acceptable(&c) && k % 4 != 0 {
                             continue;
+                        }
+                        if acceptable(&c) {
+                            // the cached clock, and what an earlier initialisation left behind
+                            if thorough {
+                                for cache in 1..4u8 {
+                                    v.push(Cfg { cache, ..c.clone() });
+                                }
+                            } else {
+                                na += 1;
+                                c.cache = (na % 4) as u8;
+                            }
                         }
                         v.push(c);
                     }
